@@ -55,7 +55,7 @@ PROPS["C13"] = {
     "level_note": "Trusted: as C02. The partial-probe clause is additionally decided per run by an oracle evaluated on the implementation's own centroids and lists (probe_specb), so that a wrong probe order yields a failing query, not only a divergence.",
     "correspondence": "ivf_index*.go + clustering.go ~ Model.VecIndex (KIVF) / Model.KMeans",
     "assumptions": ["equidistant centroids at the probe boundary make the probed set ambiguous (unstable sort): such cases are compared for soundness only"],
-    "nontrivial_min_tokens": 30,
+    "nontrivial_min_tokens": 30, "vm_cases": 3,
 }
 PROPS["C14"] = {
     "level_text": "Theorems: every PQ/IVFPQ hit carries sqrt(sum_m table_m[code_m]) for the (residual) query tables and the answer is the exact top-k by that score; every stored code byte names the FIRST codeword at minimal squared distance from the (residual) subvector (mod 256, as uint8): none strictly nearer, every earlier one strictly farther; tied to the code bit-for-bit incl. training (k-means re-run in the model) and structurally (codes and codebooks dumped and re-checked every run). For IVFPQ searches with fewer probes than cells every hit must lie in one of the p cells nearest to the query, evaluated on the implementation's own centroids and lists (probe_soundb).",
